@@ -92,7 +92,8 @@ def job(j):
         ok, clause = verdicts[r["tid"]]
         if not ok and len(viol) < 400:
             genrun.add_viol(viol, ({"kind": "trace-rejected", "clause": clause}, {"record": r, "meta": meta[r["tid"]]}))
-    return {"job": j, "tlc": [genrun.tlc_summary("MC_faults_sim.cfg(simulate seed=%d)" % seed, res, exhaustive=False), genrun.tlc_summary("Trace_sched.cfg", tres)],
+    extra_out = {"records": records} if j.get("keep_records") else {}
+    return {**extra_out, "job": j, "tlc": [genrun.tlc_summary("MC_faults_sim.cfg(simulate seed=%d)" % seed, res, exhaustive=False), genrun.tlc_summary("Trace_sched.cfg", tres)],
             "evaluations": len(records), "traces": len(records), "distinct": [hash(meta[t]["query"] + repr(meta[t]["schedule"])) for t in meta],
             "samples": [meta[t] for t in list(meta)[3:4]], "violations": viol, "extra": {"traces_accepted_but_not_model_conformant": nonconf, "traces_with_2plus_pending": multi, "trace_events": sum(len(r["events"]) for r in records)}}
 
